@@ -41,14 +41,14 @@ Lemma u32_u64 : forall x, u32 (u64 x) = u32 x.
 Proof. intros; unfold u32, u64, W32, W64; lia. Qed.
 
 (** ** operand reads.  [adm32 wide c]: operand codes of a 32-bit source that the
-    theorems cover; with [wide] also the kinds ReadOperand delivers as 64-bit
-    values (VCC_LO with count 0, negative inline constants). *)
+    theorems cover; with [wide] also the kind ReadOperand delivers as a 64-bit
+    value (negative inline constants: uint64(int64(-k))). *)
 Definition adm32 (wide : bool) (c : Z) : Prop :=
-  0 <= c <= 101 \/ c = 124 \/ c = 126 \/ 128 <= c <= 192 \/ 240 <= c <= 248 \/ c = 253 \/ c = 255 \/
-  (wide = true /\ (c = 106 \/ 193 <= c <= 208)).
+  0 <= c <= 101 \/ c = 106 \/ c = 107 \/ c = 124 \/ c = 126 \/ c = 127 \/ 128 <= c <= 192 \/
+  240 <= c <= 248 \/ c = 253 \/ c = 255 \/ (wide = true /\ 193 <= c <= 208).
 Definition adm64 (c : Z) : Prop :=
   0 <= c <= 100 \/ c = 106 \/ c = 126 \/ 128 <= c <= 208 \/ c = 255.
-Definition admd32 (c : Z) : Prop := 0 <= c <= 101 \/ c = 106 \/ c = 107 \/ c = 124.
+Definition admd32 (c : Z) : Prop := 0 <= c <= 101 \/ c = 106 \/ c = 107 \/ c = 124 \/ c = 126 \/ c = 127.
 Definition admd64 (c : Z) : Prop := 0 <= c <= 100 \/ c = 106 \/ c = 126.
 
 Lemma inline_f32_range : forall c, 0 <= inline_f32 c < W32.
@@ -66,10 +66,10 @@ Proof.
   pose proof (Hs c) as Hsc.
   unfold adm32 in H. unfold rd, src32.
   repeat case_if; eexists; (split; [reflexivity|]);
-    unfold u32, W32, W64 in *;
+    unfold u32, hi32, W32, W64 in *;
     (split; [f_equal; try lia|split; [try lia|intros; try lia]]).
   all: try (rewrite Z.mod_small; lia).
-  all: subst wide; intuition (try discriminate; try lia).
+  all: try subst wide; intuition (try discriminate; try lia).
 Qed.
 
 Lemma rd64_ok : forall st c lit, wf st -> 0 <= lit < W32 -> adm64 c ->
@@ -200,19 +200,6 @@ Ltac fin := unf; split; repeat case_if; try lia.
 Ltac one := vok32; do 2 eexists; (split; [reflexivity|]); fin.
 Ltac narrow Hn := destruct (Hn eq_refl) as [Hnx Hny].
 
-(** *** SOP2, arithmetic / select rows *)
-Lemma g_sop2_0 : val_ok32 GCN3 0 true. Proof. one. Qed.
-Lemma g_sop2_10 : val_ok32 GCN3 10 true. Proof. one. Qed.
-Lemma g_sop2_5 : val_ok32 GCN3 5 false.
-Proof. vok32. narrow Hn. do 2 eexists; (split; [reflexivity|]). fin. Qed.
-Lemma c_sop2_0 : val_ok32 CDNA3 0 true. Proof. one. Qed.
-Lemma c_sop2_1 : val_ok32 CDNA3 1 true. Proof. one. Qed.
-Lemma c_sop2_2 : val_ok32 CDNA3 2 true. Proof. one. Qed.
-Lemma c_sop2_3 : val_ok32 CDNA3 3 true. Proof. one. Qed.
-Lemma c_sop2_4 : val_ok32 CDNA3 4 true. Proof. one. Qed.
-Lemma c_sop2_5 : val_ok32 CDNA3 5 true. Proof. one. Qed.
-Lemma c_sop2_10 : val_ok32 CDNA3 10 true. Proof. one. Qed.
-
 (** *** SOPP: branches, S_NOP, S_WAITCNT (same handler code in both ALUs) *)
 Lemma land_ffff : forall k, Z.land k 65535 = k mod 65536.
 Proof. intros; change 65535 with (Z.ones 16); rewrite Z.land_ones by lia; reflexivity. Qed.
@@ -284,27 +271,7 @@ Proof.
     apply andb_true_iff in Hl. destruct Hl as [Hh Ht]. case_if; [lia|]. apply IH; auto.
 Qed.
 
-(** ** format-level theorems *)
-Definition sop2_proved32 (a : arch) : list (Z * bool) :=
-  match a with
-  | GCN3 => [(0, true); (10, true); (5, false)]
-  | CDNA3 => [(0, true); (1, true); (2, true); (3, true); (4, true); (5, true); (10, true)]
-  end.
-
-Lemma sop2_agree : forall a st i wide, In (i_op i, wide) (sop2_proved32 a) -> wf st ->
-  i_fmt i = F_SOP2 -> 0 <= i_lit i < W32 ->
-  adm32 wide (i_src0 i) -> adm32 wide (i_src1 i) -> admd32 (i_dst i) -> agree a st i.
-Proof.
-  intros a st i wide Hop Hwf Hfmt Hl H0 H1 Hd.
-  apply (glue_sop2_32 a st i wide); auto.
-  destruct a; unfold sop2_proved32 in Hop; cbn [In] in Hop;
-    repeat (destruct Hop as [Hop|Hop]; [injection Hop as Ho Hw; subst wide; rewrite <- Ho|]);
-    try contradiction.
-  - exact g_sop2_0. - exact g_sop2_10. - exact g_sop2_5.
-  - exact c_sop2_0. - exact c_sop2_1. - exact c_sop2_2. - exact c_sop2_3.
-  - exact c_sop2_4. - exact c_sop2_5. - exact c_sop2_10.
-Qed.
-
+(** ** architecture independence of the specification *)
 Lemma sop2_row_arch : forall op, op <> 44 -> sop2_row GCN3 op = sop2_row CDNA3 op.
 Proof.
   intros op H. unfold sop2_row.
